@@ -30,9 +30,11 @@ func init() {
 }
 
 type c04Meta struct {
-	Rows   int    `json:"rows"`
-	RootID string `json:"root_id"`
-	Key    string `json:"key"`
+	Rows      int    `json:"rows"`
+	RootID    string `json:"root_id"`
+	Key       string `json:"key"`
+	RootEdges int    `json:"root_edges"`  // edges with up = 'root'
+	RootIsTop bool   `json:"root_is_top"` // meta.root_id is the lower end of such an edge
 }
 
 func c04ReadMeta(dbfile string) (c04Meta, error) {
@@ -57,7 +59,26 @@ func c04ReadMeta(dbfile string) (c04Meta, error) {
 		m.RootID = root.String
 		m.Key = hex.EncodeToString(key)
 	}
-	return m, rows.Err()
+	if err := rows.Err(); err != nil {
+		return m, err
+	}
+	rows.Close()
+	er, err := db.Query("SELECT down FROM edges WHERE up = 'root'")
+	if err != nil {
+		return m, err
+	}
+	defer er.Close()
+	for er.Next() {
+		var down string
+		if err := er.Scan(&down); err != nil {
+			return m, err
+		}
+		m.RootEdges++
+		if down == m.RootID {
+			m.RootIsTop = true
+		}
+	}
+	return m, er.Err()
 }
 
 func c04Ids(nc *nats.Conn, nodes []string) ([]string, error) {
@@ -95,13 +116,24 @@ func runC04Writer(cfg *config) error {
 	if err := json.Unmarshal(b, &s); err != nil {
 		return err
 	}
-	in, err := startInstance(dir, storeRootID)
+	rootID := storeRootID
+	if s.Kind == "uuid-root" {
+		rootID = "" // the instance invents its root id
+	}
+	in, err := startInstance(dir, rootID)
 	if err != nil {
 		return err
 	}
 	nc, err := nats.Connect(in.url, nats.Timeout(10*time.Second))
 	if err != nil {
 		return err
+	}
+	if s.Kind == "uuid-root" {
+		if err := c04WriteSync(filepath.Join(dir, "done"), []byte("done\n"), os.O_TRUNC); err != nil {
+			return err
+		}
+		in.stop()
+		return nil
 	}
 	ids, err := c04Ids(nc, s.Nodes)
 	if err != nil {
@@ -153,7 +185,11 @@ func runC04Verify(cfg *config) error {
 	dir := cfg.out
 	res := c04Verify{}
 	func() {
-		in, err := startInstance(dir, storeRootID)
+		rootID := storeRootID
+		if _, err := os.Stat(filepath.Join(dir, "uuid-root")); err == nil {
+			rootID = ""
+		}
+		in, err := startInstance(dir, rootID)
 		if err != nil {
 			res.Err = "reopen: " + err.Error()
 			return
@@ -168,6 +204,10 @@ func runC04Verify(cfg *config) error {
 		var nodes []string
 		if b, err := os.ReadFile(filepath.Join(dir, "nodes.json")); err == nil {
 			_ = json.Unmarshal(b, &nodes)
+		}
+		if rootID == "" {
+			res.OK = true // nothing to compare with a model: only the meta / root edge checks apply
+			return
 		}
 		ids, err := c04Ids(nc, nodes)
 		if err != nil {
@@ -211,6 +251,8 @@ type c04Case struct {
 	Reopen2  bool     `json:"reopen2_same"`
 	KeySame  bool     `json:"key_same"`
 	OneMeta  bool     `json:"one_meta"`
+	OneRoot  bool     `json:"one_root"`
+	UUIDRoot bool     `json:"uuid_root,omitempty"`
 	Key      string   `json:"key"`
 }
 
@@ -220,7 +262,7 @@ func (c *c04Case) val() string {
 		ops[i] = c20OpVal(op)
 	}
 	return vL(vBool(c.HasInit), vS(c.Root), c20ViewsVal(c.Init), vL(ops...), vI(c.Acked), vBool(c.ReopenOK),
-		vS(c.RootAft), c20ViewsVal(c.After), vBool(c.Reopen2), vBool(c.KeySame), vBool(c.OneMeta))
+		vS(c.RootAft), c20ViewsVal(c.After), vBool(c.Reopen2), vBool(c.KeySame), vBool(c.OneMeta), vBool(c.OneRoot))
 }
 
 // a script of accepted writes: node points, new edges, a mirror, edge points, a stale write
@@ -241,8 +283,14 @@ func c04Script(r *rand.Rand, id int) *sScript {
 		}
 		g.add("node-points", sOp{Kind: "np", Node: n, Points: g.batch(n, 3)})
 	}
+	// a new top-level node: the instance root moves to it, in the same transaction as its edge
+	newRoot := fmt.Sprintf("r%d", id)
+	g.add("new-root", sOp{Kind: "ep", Node: newRoot, Parent: "root", Points: []sPoint{g.tombPoint(0), g.typePoint("device")}})
+	g.add("node-points", sOp{Kind: "np", Node: newRoot, Points: g.batch(newRoot, 2)})
+	g.add("node-points", sOp{Kind: "np", Node: "n1", Points: g.batch("n1", 2)})
 	s := &sScript{ID: id, Kind: "c04", Ops: g.ops}
 	s.Nodes = append(s.Nodes, g.nodes[1:]...)
+	s.Nodes = append(s.Nodes, newRoot)
 	return s
 }
 
@@ -258,6 +306,10 @@ func c04RunOne(exe string, s *sScript, when int, killMs int) *c04Case {
 	_ = os.WriteFile(filepath.Join(dir, "script.json"), sb, 0o644)
 	nb, _ := json.Marshal(s.Nodes)
 	_ = os.WriteFile(filepath.Join(dir, "nodes.json"), nb, 0o644)
+	if s.Kind == "uuid-root" {
+		c.UUIDRoot = true
+		_ = os.WriteFile(filepath.Join(dir, "uuid-root"), []byte("1"), 0o644)
+	}
 	db := filepath.Join(dir, "db.sqlite")
 	var cmd *exec.Cmd
 	if when > 0 {
@@ -327,10 +379,9 @@ func c04RunOne(exe string, s *sScript, when int, killMs int) *c04Case {
 	c.ReopenOK = true
 	c.RootAft, c.After = v1.Root, v1.Views
 	c.OneMeta = v1.Meta.Rows == 1
+	c.OneRoot = v1.Meta.RootIsTop && (c.HasInit || v1.Meta.RootEdges == 1)
+	// the signing key never changes once set (the root id may: a new top-level node moves it, which the model follows)
 	c.KeySame = !haveMeta || wmeta.Key == "" || wmeta.Key == v1.Meta.Key
-	if haveMeta && wmeta.RootID != "" && wmeta.RootID != v1.Meta.RootID {
-		c.KeySame = false
-	}
 	v2, err := verify()
 	if err == nil && v2.OK {
 		b1, _ := json.Marshal([]any{v1.Root, v1.Views, v1.Meta})
@@ -373,6 +424,11 @@ func runC04(cfg *config) error {
 		}
 		jobs = append(jobs, job{s, 0, 0}) // an undisturbed run
 	}
+	// first-time initialisation of an instance that invents its own root id
+	us := &sScript{ID: 1000, Kind: "uuid-root"}
+	for w := 1; w <= 200; w++ {
+		jobs = append(jobs, job{us, w, 0})
+	}
 	if cfg.replay != "" {
 		jobs = nil
 		b, err := os.ReadFile(cfg.replay)
@@ -386,7 +442,11 @@ func runC04(cfg *config) error {
 			return err
 		}
 		for _, c := range rp.Cases {
-			jobs = append(jobs, job{&sScript{ID: c.Script, Ops: c.Ops, Nodes: c.Nodes}, c.When, c.KillMs})
+			kind := "c04"
+			if c.UUIDRoot {
+				kind = "uuid-root"
+			}
+			jobs = append(jobs, job{&sScript{ID: c.Script, Kind: kind, Ops: c.Ops, Nodes: c.Nodes}, c.When, c.KillMs})
 		}
 	}
 	results := make([]*c04Case, len(jobs))
